@@ -76,8 +76,8 @@ instance (d : Decl) (n : Nat) : Decidable (withinUpper d n) := by
 /-- `a[i] := x` on an ARRAY: index within the declared bounds, element of the base type, and for UNIQUE no *other*
 index holds the same value -/
 def arraySetAllowed (d : Decl) (hi : Int) (a : Int → Option Val) (i : Int) (x : Val) : Prop :=
-  d.lo ≤ i ∧ i ≤ hi ∧ x.ty = d.base ∧
-    (d.unique = true → ∀ j ∈ indices d.lo hi, j ≠ i → a j ≠ some x)
+  d.lo ≤ i ∧ i ≤ hi ∧ conforms x.ty d.base = true ∧
+    (d.unique = true → ∀ j ∈ indices d.lo hi, j ≠ i → (a j).map Val.key ≠ some x.key)
 
 instance (d : Decl) (hi : Int) (a : Int → Option Val) (i : Int) (x : Val) : Decidable (arraySetAllowed d hi a i x) := by
   unfold arraySetAllowed; exact inferInstance
@@ -93,8 +93,8 @@ instance (d : Decl) (hi : Int) (a : Int → Option Val) (i : Int) : Decidable (a
 *other* position holds the same value -/
 def listSetAllowed (d : Decl) (l : List Val) (i : Int) (x : Val) : Prop :=
   1 ≤ i ∧ i ≤ (l.length : Int) + 1 ∧ (i = (l.length : Int) + 1 → withinUpper d (l.length + 1)) ∧
-    x.ty = d.base ∧
-    (d.unique = true → ∀ j, j < l.length → (j : Int) + 1 ≠ i → l[j]? ≠ some x)
+    conforms x.ty d.base = true ∧
+    (d.unique = true → ∀ j, j < l.length → (j : Int) + 1 ≠ i → (l[j]?).map Val.key ≠ some x.key)
 
 instance (d : Decl) (l : List Val) (i : Int) (x : Val) : Decidable (listSetAllowed d l i x) := by
   unfold listSetAllowed; exact inferInstance
@@ -105,14 +105,15 @@ instance (l : List Val) (i : Int) : Decidable (listGetAllowed l i) := by
   unfold listGetAllowed; exact inferInstance
 
 /-- adding to a BAG: base type and no more elements than the upper bound -/
-def bagAddAllowed (d : Decl) (b : List Val) (x : Val) : Prop := x.ty = d.base ∧ withinUpper d (b.length + 1)
+def bagAddAllowed (d : Decl) (b : List Val) (x : Val) : Prop :=
+  conforms x.ty d.base = true ∧ withinUpper d (b.length + 1)
 
 instance (d : Decl) (b : List Val) (x : Val) : Decidable (bagAddAllowed d b x) := by
   unfold bagAddAllowed; exact inferInstance
 
 /-- adding to a SET: base type; a value already present leaves the set as it is, a new one must fit -/
 def setAddAllowed (d : Decl) (s : List Val) (x : Val) : Prop :=
-  x.ty = d.base ∧ (x ∈ s ∨ withinUpper d (s.length + 1))
+  conforms x.ty d.base = true ∧ (x.key ∈ s.map Val.key ∨ withinUpper d (s.length + 1))
 
 instance (d : Decl) (s : List Val) (x : Val) : Decidable (setAddAllowed d s x) := by
   unfold setAddAllowed; exact inferInstance
@@ -124,7 +125,7 @@ def arraySet (a : Int → Option Val) (i : Int) (x : Val) : Int → Option Val :
 def listSet (l : List Val) (i : Int) (x : Val) : List Val :=
   if i = (l.length : Int) + 1 then l ++ [x] else l.set (i - 1).toNat x
 
-def setAdd (s : List Val) (x : Val) : List Val := if x ∈ s then s else insertSorted x s
+def setAdd (s : List Val) (x : Val) : List Val := if x.key ∈ s.map Val.key then s else insertSorted x s
 
 def ofOptBound : Option Int → Ans
   | none => .indet
@@ -133,9 +134,9 @@ def ofOptBound : Option Int → Ans
 /-- VALUE_UNIQUE of an ARRAY: UNKNOWN when some element is indeterminate, else whether all elements differ -/
 def arrayValueUnique (lo hi : Int) (a : Int → Option Val) : Logical :=
   if ∃ j ∈ indices lo hi, a j = none then .u
-  else if ((indices lo hi).map a).Nodup then .t else .f
+  else if (((indices lo hi).map a).map (Option.map Val.key)).Nodup then .t else .f
 
-def seqValueUnique (l : List Val) : Logical := if l.Nodup then .t else .f
+def seqValueUnique (l : List Val) : Logical := if (l.map Val.key).Nodup then .t else .f
 
 /-- one operation on an aggregate value of declaration `d` -/
 def step (d : Decl) : Value → Op → Value × Ans
